@@ -451,33 +451,12 @@ func (ex *Exec) modularCall(fr *Frame, st *State, pc *Term, fn *ssa.Function, c 
 		if b, k, ok := splitAddConst(nextPre); ok && nextSyms[b] {
 			nextGE[st.next] = idBound{b, k}
 		}
-		ex.assume(pc, ULe(nextPre, st.next))
+		ex.assume(pc, And(ULe(nextPre, st.next), ULt(st.next, C64(1<<56))))
 	}
-	for comp := range ws {
-		if comp == "next" || strings.HasPrefix(comp, "cell:") {
-			continue
-		}
-		srt := compSorts[comp]
-		if srt == nil {
-			continue
-		}
-		old := st.comp(comp, srt)
-		nw := Fresh("havoc$"+comp, srt)
-		ex.noteWrite(comp)
-		st.setComp(comp, nw)
-		i := Bound("i", srt.Idx)
-		var frame *Term
-		if strings.HasPrefix(comp, "E|") || strings.HasPrefix(comp, "M|") {
-			j := Bound("j", srt.Elem.Idx)
-			keep := And(ULt(i, nextPre), Not(ex.inMod(targets, comp, i, j)))
-			frame = Forall([]*Term{i, j}, Implies(keep, Eq(Select(Select(nw, i), j), Select(Select(old, i), j))),
-				[]*Term{Select(Select(nw, i), j)})
-		} else {
-			keep := And(ULt(i, nextPre), Not(ex.inMod(targets, comp, i, nil)))
-			frame = Forall([]*Term{i}, Implies(keep, Eq(Select(nw, i), Select(old, i))), []*Term{Select(nw, i)})
-		}
-		ex.assume(pc, frame)
-	}
+	// Only the declared targets change (the callee proves its frame). Objects the callee
+	// allocates live at ids >= nextPre, about which nothing was ever assumed, so the
+	// components need not be replaced as a whole: the havoc is a set of point updates.
+	ex.havocTargets(st, pc, targets)
 	// results
 	res := fn.Signature.Results()
 	var rvals []Value
@@ -728,14 +707,55 @@ func (ex *Exec) linearAppend(fr *Frame, site ssa.Instruction) bool {
 	if !ok {
 		return false
 	}
-	a, ok := ld.X.(*ssa.Alloc)
-	if !ok {
-		return false
-	}
-	for _, n := range c.Linear {
-		if a.Comment == n {
-			if err := checkLinear(a); err != "" {
-				panic(unsupported("variable " + n + " is declared linear but " + err))
+	switch a := ld.X.(type) {
+	case *ssa.Alloc:
+		for _, n := range c.Linear {
+			if a.Comment == n {
+				if err := checkLinearAddrs(fr.fn, []ssa.Value{a}); err != "" {
+					panic(unsupported("variable " + n + " is declared linear but " + err))
+				}
+				return true
+			}
+		}
+	case *ssa.FieldAddr:
+		// linear field "recv.Field": every access to that field of that struct type in the function
+		// must follow the linear discipline
+		pt, ok := under(a.X.Type()).(*types.Pointer)
+		if !ok {
+			return false
+		}
+		stt, ok := under(pt.Elem()).(*types.Struct)
+		if !ok {
+			return false
+		}
+		fname := stt.Field(a.Field).Name()
+		for _, n := range c.Linear {
+			parts := strings.Split(n, ".")
+			if len(parts) != 2 || parts[1] != fname {
+				continue
+			}
+			var addrs []ssa.Value
+			for _, b := range fr.fn.Blocks {
+				for _, in := range b.Instrs {
+					if fa, ok := in.(*ssa.FieldAddr); ok && fa.Field == a.Field && types.Identical(fa.X.Type(), a.X.Type()) {
+						addrs = append(addrs, fa)
+					}
+				}
+			}
+			if err := checkLinearAddrs(fr.fn, addrs); err != "" {
+				panic(unsupported("field " + n + " is declared linear but " + err))
+			}
+			// no call in the function may receive a pointer to the struct (an alias could touch the field)
+			for _, b := range fr.fn.Blocks {
+				for _, in := range b.Instrs {
+					if ci, ok := in.(ssa.CallInstruction); ok {
+						for _, arg := range ci.Common().Args {
+							if types.Identical(arg.Type(), a.X.Type()) {
+								panic(unsupported("field " + n + " is declared linear but a pointer to its struct is passed to a call"))
+							}
+						}
+					}
+				}
 			}
 			return true
 		}
@@ -743,68 +763,86 @@ func (ex *Exec) linearAppend(fr *Frame, site ssa.Instruction) bool {
 	return false
 }
 
-var linearChecked = map[*ssa.Alloc]string{}
+var linearChecked = map[ssa.Value]string{}
 
-func checkLinear(a *ssa.Alloc) string {
-	if r, ok := linearChecked[a]; ok {
+// checkLinearAddrs: the variable (its address values) is only used as s = append(s, ...), s[i], len/cap(s), return s
+func checkLinearAddrs(fn *ssa.Function, addrs []ssa.Value) string {
+	if len(addrs) == 0 {
+		return "it has no address"
+	}
+	if r, ok := linearChecked[addrs[0]]; ok {
 		return r
 	}
-	res := ""
-	if a.Heap {
-		res = "its address escapes"
-	}
-	for _, r := range *a.Referrers() {
-		switch x := r.(type) {
-		case *ssa.DebugRef:
-		case *ssa.Store:
-			if x.Addr != ssa.Value(a) {
-				res = "it is stored somewhere"
+	isAddr := func(v ssa.Value) bool {
+		for _, a := range addrs {
+			if a == v {
+				return true
 			}
-		case *ssa.UnOp: // load
-			for _, u := range *x.Referrers() {
-				switch y := u.(type) {
-				case *ssa.DebugRef, *ssa.Return, *ssa.IndexAddr:
-				case *ssa.Store:
-					// copying into the anonymous result cell just before returning
-					ra, ok := y.Addr.(*ssa.Alloc)
-					if !ok || ra.Comment != "" || ra.Heap {
-						res = "it is copied to another variable"
-					}
-				case *ssa.Call:
-					b, ok := y.Call.Value.(*ssa.Builtin)
-					if !ok {
-						res = "it is passed to a call"
-						break
-					}
-					switch b.Name() {
-					case "len", "cap":
-					case "append":
-						if y.Call.Args[0] != ssa.Value(x) {
-							res = "it is appended to another slice"
+		}
+		return false
+	}
+	res := ""
+	for _, a := range addrs {
+		if al, ok := a.(*ssa.Alloc); ok && al.Heap {
+			res = "its address escapes"
+		}
+		refs := a.Referrers()
+		if refs == nil {
+			continue
+		}
+		for _, r := range *refs {
+			switch x := r.(type) {
+			case *ssa.DebugRef:
+			case *ssa.Store:
+				if !isAddr(x.Addr) {
+					res = "its address is stored somewhere"
+				}
+			case *ssa.UnOp: // load
+				for _, u := range *x.Referrers() {
+					switch y := u.(type) {
+					case *ssa.DebugRef, *ssa.Return, *ssa.IndexAddr:
+					case *ssa.Store:
+						// copying into the anonymous result cell just before returning
+						ra, ok := y.Addr.(*ssa.Alloc)
+						if !ok || ra.Comment != "" || ra.Heap {
+							res = "it is copied to another variable"
 						}
-						for _, w := range *y.Referrers() {
-							switch z := w.(type) {
-							case *ssa.DebugRef:
-							case *ssa.Store:
-								if z.Addr != ssa.Value(a) {
-									res = "an append result is stored elsewhere"
-								}
-							default:
-								res = "an append result is used other than by assignment to itself"
+					case *ssa.Call:
+						b, ok := y.Call.Value.(*ssa.Builtin)
+						if !ok {
+							res = "it is passed to a call"
+							break
+						}
+						switch b.Name() {
+						case "len", "cap":
+						case "append":
+							if y.Call.Args[0] != ssa.Value(x) {
+								res = "it is appended to another slice"
 							}
+							for _, w := range *y.Referrers() {
+								switch z := w.(type) {
+								case *ssa.DebugRef:
+								case *ssa.Store:
+									if !isAddr(z.Addr) {
+										res = "an append result is stored elsewhere"
+									}
+								default:
+									res = "an append result is used other than by assignment to itself"
+								}
+							}
+						default:
+							res = "it is passed to builtin " + b.Name()
 						}
 					default:
-						res = "it is passed to builtin " + b.Name()
+						res = fmt.Sprintf("it is used by %T", u)
 					}
-				default:
-					res = fmt.Sprintf("it is used by %T", u)
 				}
+			default:
+				res = fmt.Sprintf("it is used by %T", r)
 			}
-		default:
-			res = fmt.Sprintf("it is used by %T", r)
 		}
 	}
-	linearChecked[a] = res
+	linearChecked[addrs[0]] = res
 	return res
 }
 
@@ -837,4 +875,67 @@ func (ex *Exec) doLinearAppend(st *State, pc *Term, et types.Type, s VSlice, src
 		st.setComp(name, Store(Store(c, s.Arr, spare), p, grow))
 	}
 	return VSlice{p, C64(0), newLen, newCap}
+}
+
+// havocTargets replaces the content of every modifies target by unknown values.
+func (ex *Exec) havocTargets(st *State, pc *Term, targets []modTarget) {
+	upd := func(name string, f func(c *Term) *Term) {
+		srt := compSorts[name]
+		if srt == nil {
+			return
+		}
+		c := st.comp(name, srt)
+		ex.noteWrite(name)
+		st.setComp(name, f(c))
+	}
+	for _, t := range targets {
+		switch t.kind {
+		case "elems":
+			s := t.val.(VSlice)
+			et := under(t.typ).(*types.Slice).Elem()
+			for i, srt := range leafSorts(et) {
+				name := eCompName(et, i)
+				compSorts[name] = ArrSort(BV64, ArrSort(BV64, srt))
+				upd(name, func(c *Term) *Term {
+					return Store(c, s.Arr, RowCopy(Select(c, s.Arr), s.Off, Fresh("havocrow", ArrSort(BV64, srt)), C64(0), s.Len))
+				})
+			}
+		case "obj", "global":
+			p := t.val.(VPtr)
+			et := under(t.typ).(*types.Pointer).Elem()
+			for i, srt := range leafSorts(et) {
+				name := hCompName(et, i)
+				compSorts[name] = ArrSort(BV64, srt)
+				upd(name, func(c *Term) *Term { return Store(c, p.T, Fresh("havoc", srt)) })
+			}
+		case "field":
+			p := t.val.(VPtr)
+			et := under(t.typ).(*types.Pointer).Elem()
+			stt := under(et).(*types.Struct)
+			ss := leafSorts(et)
+			for k := 0; k < stt.NumFields(); k++ {
+				if stt.Field(k).Name() != t.field {
+					continue
+				}
+				lo, hi := fieldLeafRange(stt, k)
+				for l := lo; l < hi; l++ {
+					name := hCompName(et, l)
+					srt := ss[l]
+					compSorts[name] = ArrSort(BV64, srt)
+					upd(name, func(c *Term) *Term { return Store(c, p.T, Fresh("havoc", srt)) })
+				}
+			}
+		case "mapof":
+			m := t.val.(VMap)
+			mt := under(t.typ).(*types.Map)
+			pn, ps, vn, vs := mapComps(mt)
+			compSorts[pn] = ps
+			upd(pn, func(c *Term) *Term { return Store(c, m.T, Fresh("havocmap", ps.Elem)) })
+			for i := range vn {
+				srt := vs[i]
+				compSorts[vn[i]] = srt
+				upd(vn[i], func(c *Term) *Term { return Store(c, m.T, Fresh("havocmap", srt.Elem)) })
+			}
+		}
+	}
 }
